@@ -128,6 +128,11 @@ func Run(rep *hx.Report, props Props, tier string, sh hx.Shard, deadline time.Ti
 										st.R, st.W, st.P = r, w, p
 										ck.Check(st)
 									}
+									if len(ps) == 1 && f/448 == int(g.SPL) {
+										// the split at a process limit of 1 (quick tier; thorough has P in {1,2} throughout)
+										st.R, st.W, st.P = r, w, 1
+										ck.Check(st)
+									}
 								}
 							}
 						}
